@@ -35,6 +35,21 @@ class Raw(object):
     def __hash__(self): return hash(self.text)
 
 
+class XmlTree(object):
+    """the value of an AnyXml member: one of the named trees"""
+    def __init__(self, name): self.name = name
+    def __repr__(self): return 'XmlTree(%r)' % self.name
+
+
+# (the prefix of the type markers - xs - is used by nothing else in any document: only its binding gives the markers a meaning)
+TREES = {
+    'plain': '<note>hi</note>',
+    'typed_int': '<bag:v xmlns:bag="urn:bag" xmlns:xs="http://www.w3.org/2001/XMLSchema" xmlns:xsi="http://www.w3.org/2001/XMLSchema-instance" xsi:type="xs:int">5</bag:v>',
+    'typed_bag': '<bag:props xmlns:bag="urn:bag" xmlns:xs="http://www.w3.org/2001/XMLSchema" xmlns:xsi="http://www.w3.org/2001/XMLSchema-instance">'
+                 '<bag:v xsi:type="xs:string">a</bag:v><bag:v xsi:type="xs:int">5</bag:v></bag:props>',
+}
+
+
 def xml_escape(s):
     return s.replace('&', '&amp;').replace('<', '&lt;').replace('>', '&gt;')
 
@@ -101,6 +116,8 @@ def xml_member(gen, name, t, v, ns, pref):
     if v is NIL:
         return '<%s xsi:nil="true"/>' % q
     k = t['k']
+    if k == 'any':
+        return '<%s>%s</%s>' % (q, TREES[v.name], q)
     if k in ('prim', 'enum'):
         # (xsi:nil="false" says what is the case anyway: the element is NOT nil)
         notnil = ' xsi:nil="false"' if NOISE[0] == 'nilfalse' else ''
